@@ -9,7 +9,7 @@ solver portfolio as a QF_NIA identity (unsat = the two sides agree for all integ
 import threading
 
 from .terms import mk_and, mk_or, mk_not, mk_implies, conjuncts
-from .ring import RPoly, req, req_atoms, find_cofactors, identity_query, P25519, to_sympy, from_sympy
+from .ring import RPoly, req, req_atoms, find_cofactors, identity_query, MOD, to_sympy, from_sympy
 from . import smt
 
 _lock = threading.Lock()
@@ -73,7 +73,7 @@ def cofactors_multi(goals, hyps):
                 rhs = RPoly()
                 for q, h in zip(qs, hyps):
                     rhs = rhs + q * h
-                if (lhs - rhs).t or c % P25519 == 0:
+                if (lhs - rhs).t or c % MOD() == 0:
                     r = None
             out[k] = r
             if r is not None:
@@ -110,7 +110,7 @@ def m1_lemmas(atoms):
             prod = prod * q.pow(e)
         if (prod - p).t and (prod + p).t:
             continue
-        if c % P25519 == 0:
+        if c % MOD() == 0:
             continue
         lemmas.append(mk_implies(req(p), mk_or(*[req(q) for q, _ in fs])))
         for q, _ in fs:
